@@ -593,6 +593,7 @@ fn check_fixed_point(ctx: &mut Ctx, bytes: &[u8], opts: Option<u8>) {
         viol(ctx, "second-encoding-differs".into(), format!("first encoding {}, second {}", hex(&e1), hex(&w2.data)));
     }
     ctx.note_nontrivial(fnv(bytes, opts.map(|o| o as u64 + 1).unwrap_or(0)));
+    super::wirecheck::mark_wire(Entry::Message, opts, bytes);
     ctx.tally(if e1 == bytes { "canonical-input" } else { "non-canonical-input" });
     ctx.sample(|| wire_json(Entry::Message, opts, bytes));
 }
@@ -608,6 +609,7 @@ fn run_c10(ctx: &mut Ctx) {
             let bytes = wc.bytes;
             let desc = || wire_json(Entry::Message, opts, bytes);
             ctx.case(&desc, |ctx| check_fixed_point(ctx, bytes, opts));
+            super::wirecheck::remember_wire(Entry::Message, opts, bytes);
         }
     };
     gen::wire(ctx, tier, &mut sink);
@@ -616,6 +618,10 @@ fn run_c10(ctx: &mut Ctx) {
 fn replay_c10(ctx: &mut Ctx, v: &Value) {
     let bytes = v["hex"].as_str().and_then(unhex).unwrap_or_default();
     let opts = v["opts"].as_u64().map(|x| x as u8);
-    let desc = || wire_json(Entry::Message, opts, &bytes);
+    for (_, o, b) in super::wirecheck::wire_history_of(v) {
+        let mut scratch = Ctx::new(&ctx.prop, ctx.tier, 0, 1);
+        check_fixed_point(&mut scratch, &b, o);
+    }
+    let desc = || json!({"kind":"wire","entry":"message","opts":opts,"hex":hex(&bytes)});
     ctx.case(&desc, |ctx| check_fixed_point(ctx, &bytes, opts));
 }
